@@ -86,7 +86,7 @@ fn gen_image(rng: &mut Rng, case: u64) -> (&'static str, Vec<u8>) {
         build_sii(&d)
     };
     let _ = case;
-    match rng.below(16) {
+    match rng.below(19) {
         0 => {
             let n = *rng.pick(&[0usize, 1, 3, 16, 127, 128, 129, 200, 1024, 4096]);
             ("random", rng.bytes(n))
@@ -196,6 +196,47 @@ fn gen_image(rng: &mut Rng, case: u64) -> (&'static str, Vec<u8>) {
             }
             img.resize(*rng.pick(&[2048usize, 131072]), *rng.pick(&[0u8, 0xff]));
             ("no-end-marker", img)
+        }
+        15 | 16 => {
+            // the chain's next header lies at the very top of the 16 bit word address space
+            // (0xfffc..=0xffff), where `address + 2` and `address + 2 + length` leave it; the header
+            // found there continues the chain in various ways (back to 0x40, to itself, nowhere)
+            let mut img = base(rng);
+            img.resize(131072, *rng.pick(&[0u8, 0xff, 0x01]));
+            let hs = category_headers(&img);
+            let h = hs[rng.usize_below(hs.len().min(3))];
+            let word = (h / 2) as u16;
+            let top = *rng.pick(&[0xfffeu16, 0xfffe, 0xffff, 0xfffd, 0xfffc]);
+            put16(&mut img, h, *rng.pick(&[0x0800u16, 1, 5]));
+            put16(&mut img, h + 2, top.wrapping_sub(word).wrapping_sub(2));
+            let t = top as usize * 2;
+            if t + 2 <= img.len() {
+                put16(&mut img, t, *rng.pick(&[0x0800u16, 1, 0, 30, 10, 41]));
+            }
+            if t + 4 <= img.len() {
+                put16(&mut img, t + 2, *rng.pick(&[0x0040u16, 0x0040, 0x003e, 0x0041, 0, 1, 2, 0xfffe, 0xffff, 0x8000]));
+            }
+            ("next-header-at-top-of-address-space", img)
+        }
+        17 => {
+            // a strings category that is present but says it holds no strings (or fewer than are
+            // looked up), with non-zero string indices in the general category
+            let opts = GenOpts { max_strings: 4, ..Default::default() };
+            let mut d = gen_desc(rng, &opts);
+            d.has_general = true;
+            if d.strings.is_empty() {
+                d.strings.push(b"x".to_vec());
+            }
+            d.order_idx = 1 + rng.below(3) as u8;
+            d.name_idx = 1 + rng.below(3) as u8;
+            d.group_idx = 1;
+            let mut img = build_sii(&d);
+            for h in category_headers(&img) {
+                if u16::from_le_bytes([img[h], img[h + 1]]) == 10 && h + 5 < img.len() {
+                    img[h + 4] = *rng.pick(&[0u8, 0, 0, 1]);
+                }
+            }
+            ("string-table-count-zero", img)
         }
         _ => {
             // headers with all-equal type searched for, zero length (empty categories)
